@@ -2,6 +2,7 @@
  *
  * usage: c15_digest run <seed> <ncases> <nops> <module>...
  *        c15_digest one <case_seed> <nops> <module> [-v] [-g1] (replay of one case; -g1: first-generation generators only)
+ *        c15_digest long <case_seed> <nticks>                    (synthetic long-loop module rendered tick by tick)
  *        c15_digest probe <module>...                          (prints: probe <path> <invert-loop capable> <8-bit looped samples>
  *                                                                <non-default instrument volumes> <sub-instruments whose sample number differs from the instrument number>)
  *
@@ -834,6 +835,157 @@ static int run_case(uint64_t case_seed, int nops, const char *path)
 	return 0;
 }
 
+/* ------------------------------------------------------------------ long runs on synthetic modules
+ * Long histories x large geometry: an M.K. module is generated in memory with a few samples of random size up to the
+ * format's maximum (131070 bytes) and random loops (short, around 32768/65536 bytes, up to the whole sample), notes with
+ * invert-loop effects of random speed on three channels, a slow song speed / fast tempo so that one tick is a few dozen
+ * output frames, and an order list that mostly replays empty patterns (some carry further notes, instrument-only rows and
+ * effects).  It is rendered tick by tick for tens of thousands of ticks with the full comparison after every tick. */
+static unsigned char *build_synth_mod(long *size, int *nsmp_out)
+{
+	static const int periods[] = { 856, 428, 214, 320, 170, 113 };
+	int nsmp = vrng_range(2, 4), i, c, r, npat = 3;
+	long slen[4], lps[4], llen[4], total = 1084 + npat * 1024, off;
+	unsigned char *b;
+
+	for (i = 0; i < nsmp; i++) {
+		switch (vrng_below(5)) {
+		case 0: slen[i] = vrng_range(2, 1000) * 2; break;
+		case 1: slen[i] = vrng_range(15000, 18000) * 2; break;	/* around 32768 */
+		case 2: slen[i] = vrng_range(32000, 34000) * 2; break;	/* around 65536 */
+		default: slen[i] = vrng_range(20000, 65535) * 2;
+		}
+		switch (vrng_below(4)) {
+		case 0: lps[i] = 0; llen[i] = slen[i]; break;			/* whole sample */
+		case 1: lps[i] = 0; llen[i] = vrng_range(1, (int)(slen[i] / 2)) * 2; break;
+		default:
+			lps[i] = vrng_range(0, (int)(slen[i] / 2) - 1) * 2;
+			llen[i] = vrng_range(1, (int)((slen[i] - lps[i]) / 2)) * 2;
+		}
+		if (vrng_chance(60) && slen[i] > 70000) {	/* favour long loops on long samples */
+			lps[i] = vrng_range(0, 15000) * 2;
+			llen[i] = slen[i] - lps[i] - vrng_range(0, 2000) * 2;
+		}
+		total += slen[i];
+	}
+	b = (unsigned char *)calloc(1, total);
+	memcpy(b, "c15 synthetic", 13);
+	for (i = 0; i < 31; i++) {
+		unsigned char *h = b + 20 + 30 * i;
+		if (i < nsmp) {
+			h[22] = (slen[i] / 2) >> 8; h[23] = (slen[i] / 2) & 0xff;
+			h[24] = vrng_below(16); h[25] = vrng_range(20, 64);
+			h[26] = (lps[i] / 2) >> 8; h[27] = (lps[i] / 2) & 0xff;
+			h[28] = (llen[i] / 2) >> 8; h[29] = (llen[i] / 2) & 0xff;
+		} else {
+			h[29] = 1;
+		}
+	}
+	b[950] = 128;
+	b[951] = 0x7f;
+	for (i = 1; i < 128; i++)
+		b[952 + i] = vrng_chance(8) ? 2 : 1;	/* mostly the empty pattern 1 */
+	memcpy(b + 1080, "M.K.", 4);
+	/* pattern 0, row 0: notes with invert loop on channels 0-2; channel 3 sets speed and tempo */
+	for (c = 0; c < 3; c++) {
+		unsigned char *ev = b + 1084 + c * 4;
+		int per = periods[vrng_below(6)], ins = vrng_range(1, nsmp);
+		int spd = vrng_chance(60) ? 15 : vrng_range(0, 15);
+		if (vrng_chance(15))
+			continue;
+		ev[0] = (ins & 0xf0) | (per >> 8); ev[1] = per & 0xff;
+		ev[2] = ((ins & 0x0f) << 4) | 0x0e; ev[3] = 0xf0 | spd;
+	}
+	b[1084 + 3 * 4 + 2] = 0x0f; b[1084 + 3 * 4 + 3] = vrng_range(8, 31);		/* row 0: F xx speed */
+	b[1084 + 16 + 3 * 4 + 2] = 0x0f; b[1084 + 16 + 3 * 4 + 3] = vrng_range(200, 255);	/* row 1: tempo */
+	/* pattern 2: a few random events (notes, instrument-only rows, effects) */
+	for (i = 0; i < 6; i++) {
+		unsigned char *ev;
+		int per, ins;
+		r = vrng_below(64); c = vrng_below(4);
+		ev = b + 1084 + 2 * 1024 + r * 16 + c * 4;
+		per = vrng_chance(50) ? periods[vrng_below(6)] : 0;
+		ins = vrng_chance(50) ? vrng_range(1, nsmp) : 0;
+		ev[0] = (ins & 0xf0) | (per >> 8); ev[1] = per & 0xff;
+		ev[2] = ((ins & 0x0f) << 4) | (vrng_chance(50) ? 0x0e : vrng_below(11));
+		ev[3] = ev[2] == 0x0e || (ev[2] & 0x0f) == 0x0e ? (0xf0 | vrng_below(16)) : vrng_below(256);
+	}
+	off = 1084 + npat * 1024;
+	for (i = 0; i < nsmp; i++) {
+		long k;
+		for (k = 0; k < slen[i]; k++)
+			b[off + k] = (unsigned char)vrng_next();
+		off += slen[i];
+	}
+	*size = total;
+	*nsmp_out = nsmp;
+	return b;
+}
+
+static int run_long(uint64_t case_seed, long nticks)
+{
+	xmp_context opaque;
+	struct context_data *ctx;
+	struct snapshot snap;
+	unsigned char *mod;
+	long size, t;
+	int nsmp, op = 0, interp, i;
+
+	vrng_seed(case_seed);
+	mod = build_synth_mod(&size, &nsmp);
+	opaque = xmp_create_context();
+	ctx = (struct context_data *)opaque;
+	if (xmp_load_module_from_memory(opaque, mod, size) < 0) {
+		printf("skip synthetic %llu\n", (unsigned long long)case_seed);
+		xmp_free_context(opaque);
+		free(mod);
+		return 0;
+	}
+	has_invloop_fx = 1;
+	take_snapshot(ctx, &snap);
+	interp = vrng_below(3);
+	printf("case %llu %ld @synthetic rate=4000 fmt=4 interp=%d inject=0 invloopfx=1 smp=%d pat=%d gen=3 mut=0 c5spd=0",
+	       (unsigned long long)case_seed, nticks, interp, ctx->m.mod.smp, ctx->m.mod.pat);
+	for (i = 0; i < nsmp; i++)
+		printf(" s%d=%d[%d,%d)", i, ctx->m.mod.xxs[i].len, ctx->m.mod.xxs[i].lps, ctx->m.mod.xxs[i].lpe);
+	printf("\n");
+	fflush(stdout);
+	if (xmp_start_player(opaque, 4000, XMP_FORMAT_MONO) < 0) {
+		printf("end frames=0\n");
+		goto out;
+	}
+	xmp_set_player(opaque, XMP_PLAYER_INTERP, interp);
+	if (vrng_chance(50))
+		xmp_set_player(opaque, XMP_PLAYER_MODE, XMP_MODE_PROTRACKER);
+	compare(ctx, &snap, -1, "xmp_start_player", 0);
+	for (t = 0; t < nticks; t++) {
+		int c, boundary = 0;
+		inv_before(ctx);
+		if (xmp_play_frame(opaque) != 0)
+			break;
+		n_frames++;
+		op = (int)t;
+		compare(ctx, &snap, op, "xmp_play_frame", 0);
+		/* model correspondence lines: sparse, but always where a position crosses a power of two */
+		for (c = 0; c < ctx->p.virt.virt_channels && c < MAXCH; c++)
+			if (inv_pos0[c] >= 127 && ((inv_pos0[c] + 1) & inv_pos0[c]) == 0)
+				boundary = 1;
+		if (boundary || t % 211 == 0)
+			inv_after(ctx);
+		if (n_fail > 12)
+			break;
+	}
+	xmp_end_player(opaque);
+	compare(ctx, &snap, op, "xmp_end_player", 0);
+	printf("end frames=%ld\n", t);
+out:
+	free_snapshot(&snap);
+	xmp_release_module(opaque);
+	xmp_free_context(opaque);
+	free(mod);
+	return 0;
+}
+
 int main(int argc, char **argv)
 {
 	int i;
@@ -843,6 +995,8 @@ int main(int argc, char **argv)
 		int npaths = argc - 5;
 		for (i = 0; i < ncases; i++)
 			run_case(seed * 1000003ULL + (uint64_t)i, nops, argv[5 + (i % npaths)]);
+	} else if (argc >= 4 && !strcmp(argv[1], "long")) {
+		run_long(strtoull(argv[2], NULL, 10), atol(argv[3]));
 	} else if (argc >= 3 && !strcmp(argv[1], "probe")) {
 		/* which modules can carry the invert-loop effect (QUIRK_PROTRACK|QUIRK_INVLOOP, 8-bit looped samples) */
 		for (i = 2; i < argc; i++) {
